@@ -38,21 +38,22 @@ def main(argv=None):
     except Exception:
         traceback.print_exc()
         return 2
-    ctx = Ctx(prop, a.tier, seed)
+    exe = getattr(mod, "DRIVER")
+    ctx = Ctx(prop, a.tier, seed, exe)
 
     # 1. proofs: build + audit ------------------------------------------------------
     theorems = list(mod.THEOREMS)
     broken = {}
     build_ok, build_out = (True, "")
     if not a.no_build:
-        build_ok, build_out = core.lake_build(["Props.%s" % prop, "amdriver"])
+        build_ok, build_out = core.lake_build(["Props.%s" % prop, exe])
     if not build_ok:
         log(build_out[-3000:])
         # is it only the proof side?  try to get a driver anyway
-        drv_ok, _ = core.lake_build(["amdriver"])
+        drv_ok, _ = core.lake_build([exe])
         for t in theorems:
             broken[t] = "lake build Props.%s failed" % prop
-        if not drv_ok and not os.path.exists(core.DRIVER):
+        if not drv_ok and not os.path.exists(ctx.drv.path):
             print("infrastructure: driver does not build", flush=True)
             return 2
         audit_res, banned = ({}, [])
